@@ -11,8 +11,16 @@
 //   range:*   RangeCalculator, InverseRangeCalculator (monotone mutual inverses)
 //   generic:* GenericCalculator on non-uniform grids (+ make_inverse)
 //   eloss:*   real PhysicsParams (own Process with dE/dx + range tables) -> PhysicsTrackView /
-//             ParticleTrackView -> calc_mean_energy_loss, range_to_step
-//   msc:*     MscStepToGeo / MscStepFromGeo with the real UrbanMscHelper on the same physics
+//             ParticleTrackView -> calc_mean_energy_loss, range_to_step.  linear_loss_limit in
+//             {0, 1e-300, 1e-3, 1e-2, 0.5 (,1)}; (min_range, max_step_over_range,
+//             min_eprime_over_e) from a 4-letter alphabet indexed by the number of knots (the
+//             defaults satisfy min_eprime_over_e == 1 - max_step_over_range); steps down to
+//             range * 2^-53 (range - step rounds to range); electron in every material, positron
+//             with the tables rotated by one material (a wrong particle index reads another table)
+//   msc:*     MscStepToGeo / MscStepFromGeo with the real UrbanMscHelper on the same physics; a
+//             different scaled-xs table per (material, particle); msc_mfp against E^2/table;
+//             MscStepFromGeo against the documented inverse in long double, round trip
+//             true -> geo -> true, monotone in the geometrical step
 //
 // Sentinels.  Every table lives in the shared `reals` pool between adversarial sentinels and
 // every object is built TWICE with different sentinels (variant 0: NaN,-1e300 | 1e300,NaN;
@@ -1027,6 +1035,27 @@ static TableSet make_tables(LogSpec const& s, int shape)
     return t;
 }
 
+// PhysicsParams scalars that enter range_to_step / calc_mean_energy_loss.  The defaults satisfy
+// min_eprime_over_e == 1 - max_step_over_range (0.8 = 1 - 0.2) and min_range == 0.1: the lattice
+// breaks both coincidences.
+struct PhysOpts
+{
+    double lll{0.01};
+    double min_range{0.1};
+    double max_step_over_range{0.2};
+    double min_eprime_over_e{0.8};
+};
+static PhysOpts phys_opts_lattice(int idx, double lll)
+{
+    static double const tab[4][3] = {{0.1, 0.2, 0.8}, {1e-3, 0.5, 0.3}, {10, 0.05, 0.99}, {0.03, 1.0, 0.6}};
+    PhysOpts o;
+    o.lll = lll;
+    o.min_range = tab[idx % 4][0];
+    o.max_step_over_range = tab[idx % 4][1];
+    o.min_eprime_over_e = tab[idx % 4][2];
+    return o;
+}
+
 struct Physics
 {
     std::shared_ptr<MaterialParams> mats;
@@ -1035,9 +1064,24 @@ struct Physics
     std::shared_ptr<PhysicsParams> phys;
     CollectionStateStore<ParticleStateData, MemSpace::host> par_state;
     CollectionStateStore<PhysicsStateData, MemSpace::host> phys_state;
-    ParticleId electron;
+    ParticleId electron, positron;
 
+    // The positron sees the tables rotated by one material: positron in material m has the
+    // tables of electron material (m + 1) % nmat, so a wrong particle index shows up.
+    static std::vector<TableSet> rotated(std::vector<TableSet> const& tabs)
+    {
+        std::vector<TableSet> r;
+        for (size_t m = 0; m < tabs.size(); ++m)
+            r.push_back(tabs[(m + 1) % tabs.size()]);
+        return r;
+    }
     void build(LogSpec const& s, std::vector<TableSet> const& tabs, double lll, int variant)
+    {
+        PhysOpts o;
+        o.lll = lll;
+        this->build(s, tabs, o, variant);
+    }
+    void build(LogSpec const& s, std::vector<TableSet> const& tabs, PhysOpts const& o, int variant)
     {
         using namespace units;
         MaterialParams::Input mi;
@@ -1056,33 +1100,37 @@ struct Physics
                       constants::stable_decay_constant});
         pars = std::make_shared<ParticleParams>(std::move(pi));
         electron = pars->find(pdg::electron());
+        positron = pars->find(pdg::positron());
         reg = std::make_shared<ActionRegistry>();
         PhysicsParams::Input in;
         in.materials = mats;
         in.particles = pars;
         in.action_registry = reg.get();
-        in.options.linear_loss_limit = lll;
+        in.options.linear_loss_limit = o.lll;
+        in.options.min_range = o.min_range;
+        in.options.max_step_over_range = o.max_step_over_range;
+        in.options.min_eprime_over_e = o.min_eprime_over_e;
         in.processes.push_back(
             std::make_shared<TableProcess>(electron, s.emin, s.emax, tabs, variant));
-        in.processes.push_back(std::make_shared<TableProcess>(
-            pars->find(pdg::positron()), s.emin, s.emax, tabs, variant));
+        in.processes.push_back(
+            std::make_shared<TableProcess>(positron, s.emin, s.emax, rotated(tabs), variant));
         phys = std::make_shared<PhysicsParams>(std::move(in));
         par_state = CollectionStateStore<ParticleStateData, MemSpace::host>(pars->host_ref(), 1);
         phys_state = CollectionStateStore<PhysicsStateData, MemSpace::host>(phys->host_ref(), 1);
     }
-    ParticleTrackView particle(double E)
+    ParticleTrackView particle(double E, bool pos = false)
     {
         ParticleTrackView p(pars->host_ref(), par_state.ref(), TrackSlotId{0});
         ParticleTrackView::Initializer_t init;
-        init.particle_id = electron;
+        init.particle_id = pos ? positron : electron;
         init.energy = units::MevEnergy{E};
         p = init;
         return p;
     }
-    PhysicsTrackView track(int mat)
+    PhysicsTrackView track(int mat, bool pos = false)
     {
-        return PhysicsTrackView(phys->host_ref(), phys_state.ref(), electron, MaterialId(mat),
-                                TrackSlotId{0});
+        return PhysicsTrackView(phys->host_ref(), phys_state.ref(), pos ? positron : electron,
+                                MaterialId(mat), TrackSlotId{0});
     }
 };
 
@@ -1093,27 +1141,58 @@ static void run_eloss_case(vf::Run& R, std::string const& cid, LogSpec const& sp
     std::vector<TableSet> tabs;
     for (int sh = 0; sh < es_count; ++sh)
         tabs.push_back(make_tables(spec, sh));
+    // (min_range, max_step_over_range, min_eprime_over_e) from a 4-letter alphabet indexed by N
+    PhysOpts const popts = phys_opts_lattice(N, lll);
     Physics P[2];
-    P[0].build(spec, tabs, lll, 0);
-    P[1].build(spec, tabs, lll, 1);
-    if (!(P[0].phys->host_ref().scalars.linear_loss_limit == lll))
-        R.harness_error("linear_loss_limit not set");
+    P[0].build(spec, tabs, popts, 0);
+    P[1].build(spec, tabs, popts, 1);
+    {
+        auto const& sc = P[0].phys->host_ref().scalars;
+        if (!(sc.linear_loss_limit == lll && sc.min_range == popts.min_range
+              && sc.max_step_over_range == popts.max_step_over_range
+              && sc.min_eprime_over_e == popts.min_eprime_over_e))
+            R.violation("physics:options-not-stored", cid,
+                        fmt("scalars lll=%g min_range=%g max_step_over_range=%g min_eprime_over_e=%g, "
+                            "options lll=%g min_range=%g max_step_over_range=%g min_eprime_over_e=%g",
+                            sc.linear_loss_limit, sc.min_range, sc.max_step_over_range,
+                            sc.min_eprime_over_e, lll, popts.min_range, popts.max_step_over_range,
+                            popts.min_eprime_over_e));
+    }
     std::vector<double> energies = make_queries(spec, thorough ? 3 : 1, false);
     energies.push_back(spec.emin * 0.5);
     energies.push_back(spec.emin * 1e-3);
     std::sort(energies.begin(), energies.end());
     std::vector<Cand> cands;
 
-    for (int mat = 0; mat < es_count; ++mat)
+    // electron in every material; positron (tables rotated by one material) in the material that
+    // gives it the exactly linear table, thorough tier: in every material
+    struct PM
     {
-        TableSet const& t = tabs[mat];
+        bool pos;
+        int mat;
+    };
+    std::vector<PM> pms;
+    for (int m = 0; m < es_count; ++m)
+        pms.push_back({false, m});
+    for (int m = 0; m < es_count; ++m)
+        if (thorough || (m + 1) % es_count == es_const)
+            pms.push_back({true, m});
+
+    for (PM const& pm : pms)
+    {
+        int const mat = pm.mat;
+        int const tabidx = pm.pos ? (mat + 1) % es_count : mat;  // which table set it must see
+        TableSet const& t = tabs[tabidx];
         XsOracle eorc{spec, t.eloss, NONE};
         RangeOracle rorc{spec, t.range};
-        bool const linear_table = (mat == es_const);
+        bool const linear_table = (tabidx == es_const);
+        std::string const mname = fmt("%s[%s in material %d]", eloss_shape_name(tabidx),
+                                      pm.pos ? "e+" : "e-", mat);
+        R.tag(pm.pos ? "eloss:positron" : "eloss:electron");
         for (double E : energies)
         {
-            ParticleTrackView par0 = P[0].particle(E), par1 = P[1].particle(E);
-            PhysicsTrackView ph0 = P[0].track(mat), ph1 = P[1].track(mat);
+            ParticleTrackView par0 = P[0].particle(E, pm.pos), par1 = P[1].particle(E, pm.pos);
+            PhysicsTrackView ph0 = P[0].track(mat, pm.pos), ph1 = P[1].track(mat, pm.pos);
             auto ppid = ph0.eloss_ppid();
             if (!ppid)
                 R.harness_error("no energy loss process");
@@ -1132,7 +1211,7 @@ static void run_eloss_case(vf::Run& R, std::string const& cid, LogSpec const& sp
                 R.count("eloss_past_end");
                 R.violation("eloss:read-past-end", cid,
                             fmt("mat=%s E=%s: range %s vs %s, dE/dx %s vs %s (sentinel A vs B)",
-                                eloss_shape_name(mat), hexd(E).c_str(), vf::dstr(range).c_str(),
+                                mname.c_str(), hexd(E).c_str(), vf::dstr(range).c_str(),
                                 vf::dstr(range1).c_str(), vf::dstr(rate).c_str(),
                                 vf::dstr(rate1).c_str()));
                 continue;
@@ -1147,7 +1226,7 @@ static void run_eloss_case(vf::Run& R, std::string const& cid, LogSpec const& sp
                     ok |= absl((ld)rate - cd.val) <= cd.tol;
                 if (!ok)
                     R.violation("eloss:rate-mismatch", cid,
-                                fmt("mat=%s dE/dx(E=%s) = %s", eloss_shape_name(mat), hexd(E).c_str(),
+                                fmt("mat=%s dE/dx(E=%s) = %s", mname.c_str(), hexd(E).c_str(),
                                     vf::dstr(rate).c_str()));
                 int kb;
                 rorc.candidates(E, cands, &kb);
@@ -1165,7 +1244,7 @@ static void run_eloss_case(vf::Run& R, std::string const& cid, LogSpec const& sp
                 }
                 if (!ok)
                     R.violation("eloss:range-mismatch", cid,
-                                fmt("mat=%s range(E=%s) = %s", eloss_shape_name(mat), hexd(E).c_str(),
+                                fmt("mat=%s range(E=%s) = %s", mname.c_str(), hexd(E).c_str(),
                                     vf::dstr(range).c_str()));
             }
             if (!(range > 0 && rate > 0))
@@ -1175,8 +1254,8 @@ static void run_eloss_case(vf::Run& R, std::string const& cid, LogSpec const& sp
 
             // range_to_step in (0, range] and == alpha r + rho (1-alpha)(2 - rho/r)
             {
-                auto const& sc = P[0].phys->host_ref().scalars;
-                ld rho = sc.min_range, alpha = sc.max_step_over_range;
+                // from the options handed to PhysicsParams, not read back from the params
+                ld rho = popts.min_range, alpha = popts.max_step_over_range;
                 std::vector<double> rs = {range, (double)rho, ulp_add((double)rho, 1),
                                           ulp_add((double)rho, -1),
                                           (double)(rho * (1 + (ld)celeritas::sqrt_tol())),
@@ -1210,7 +1289,9 @@ static void run_eloss_case(vf::Run& R, std::string const& cid, LogSpec const& sp
 
             // steps in (0, range]
             std::vector<double> steps;
-            for (double f : {1e-12, 1e-6, 1e-3, 0.01, 0.1, 0.5, 0.9, 0.99, 1 - 1e-9})
+            // (the first three: range - step rounds to range itself / moves it by a few ulp)
+            for (double f : {1.1102230246251565e-16, 1e-16, 1e-14, 1e-12, 1e-6, 1e-3, 0.01, 0.1, 0.5, 0.9,
+                             0.99, 1 - 1e-9})
                 steps.push_back(range * f);
             for (int k : {1, 2, 4})
                 steps.push_back(ulp_add(range, -k));
@@ -1239,25 +1320,47 @@ static void run_eloss_case(vf::Run& R, std::string const& cid, LogSpec const& sp
                     R.count("eloss_past_end");
                     R.violation("eloss:read-past-end", cid,
                                 fmt("mat=%s calc_mean_energy_loss(E=%s, step=%s): %s vs %s",
-                                    eloss_shape_name(mat), hexd(E).c_str(), hexd(s).c_str(),
+                                    mname.c_str(), hexd(E).c_str(), hexd(s).c_str(),
                                     vf::dstr(loss).c_str(), vf::dstr(loss1).c_str()));
                     havePrev = false;
                     continue;
                 }
                 std::string what = fmt("mat=%s lll=%g calc_mean_energy_loss(E=%s, range=%s, step=%s)",
-                                       eloss_shape_name(mat), lll, hexd(E).c_str(),
+                                       mname.c_str(), lll, hexd(E).c_str(),
                                        hexd(range).c_str(), hexd(s).c_str());
+                bool neg_roundtrip = false;
                 if (!(std::isfinite(loss) && loss >= 0))
-                    R.violation("eloss:negative-or-nan", cid,
-                                fmt("%s = %s", what.c_str(), vf::dstr(loss).c_str()));
+                {
+                    // One specific way of getting a negative loss has its own signature: the step
+                    // is so short that range - step is (within 4 ulp) the stored range itself and
+                    // the range-based branch returns E - InverseRange(Range(E)), whose round trip
+                    // lands a few ulp above E.  Only reachable when linear_loss_limit is ~0 (any
+                    // larger limit sends such a step through the linear formula).  Anything else -
+                    // NaN, another regime, a magnitude above the round-trip tolerance - stays under
+                    // the general signature.
+                    ld rem0 = (ld)range - (ld)s;
+                    bool const rem_is_range = rem0 >= (ld)ulp_add(range, -4);
+                    ld const lim = 8 * EPS * (ld)E + (sminE > 0 ? 8 * tolR / sminE : (ld)0);
+                    neg_roundtrip = std::isfinite(loss) && rem_is_range
+                                    && (ld)s * (ld)rate >= (ld)lll * (ld)E * (1 - 4 * EPS)  // not linear
+                                    && -(ld)loss <= lim;
+                    if (neg_roundtrip)
+                        R.count("eloss_negative_roundtrip");
+                    R.violation(neg_roundtrip ? "eloss:negative[range-minus-tiny-step-rounds-to-range,lll~0]"
+                                              : "eloss:negative-or-nan",
+                                cid, fmt("%s = %s", what.c_str(), vf::dstr(loss).c_str()));
+                }
                 if (!(loss <= E))
                     R.violation("eloss:exceeds-energy", cid,
                                 fmt("%s = %s > E", what.c_str(), vf::dstr(loss).c_str()));
                 // regime: linear if step*rate < lll*E.  one rounding in each product: within
                 // 4 eps of the threshold either branch is legitimate
+                // (products that land in the subnormal range - lll = 1e-300 - are rounded to a multiple
+                // of the smallest subnormal: absolute term)
+                ld const dmin = 2 * (ld)std::numeric_limits<double>::denorm_min();
                 ld lin = (ld)s * (ld)rate, thr = (ld)lll * (ld)E;
-                int regime = lin < thr * (1 - 4 * EPS) ? 1 : (lin > thr * (1 + 4 * EPS) ? 2 : 0);
-                ld tol_lin = 4 * EPS * lin;
+                int regime = lin < thr * (1 - 4 * EPS) - dmin ? 1 : (lin > thr * (1 + 4 * EPS) + dmin ? 2 : 0);
+                ld tol_lin = 4 * EPS * lin + dmin;
                 ld rem = (ld)range - (ld)s;
                 Cand inv = rorc.inverse((double)rem);
                 // range - step is rounded once: the remaining range moves by <= eps*range
@@ -1328,6 +1431,11 @@ static void run_eloss_case(vf::Run& R, std::string const& cid, LogSpec const& sp
 
 //---------------------------------------------------------------------------//
 // PART C: MSC true path <-> geometrical path
+// scaled cross section of (material m, particle p: 0 = e-, 1 = e+) = base table times this
+static double msc_factor(int m, int p)
+{
+    return 1.0 + m + 4 * p;
+}
 struct MscTables
 {
     HostVal<UrbanMscData> host;
@@ -1340,11 +1448,6 @@ struct MscTables
         host.electron_mass = units::MevMass{0.5109989461};
         Sent st = sentinel(variant);
         auto reals = make_builder(&host.reals);
-        reals.insert_back(st.pre, st.pre + 2);
-        XsGridData g;
-        g.log_energy = UniformGridData::from_bounds(std::log(s.emin), std::log(s.emax), s.N);
-        g.value = reals.insert_back(v.begin(), v.end());
-        reals.insert_back(st.post, st.post + 2);
         for (int m = 0; m < nmat; ++m)
         {
             make_builder(&host.material_data).push_back(UrbanMscMaterialData{});
@@ -1354,6 +1457,16 @@ struct MscTables
                 pm.scaled_zeff = 1;
                 pm.d_over_r = 1;
                 make_builder(&host.par_mat_data).push_back(pm);
+                // a different table for every (material, particle): scaled xs times msc_factor,
+                // each between its own sentinels
+                std::vector<double> vv(v);
+                for (double& x : vv)
+                    x *= msc_factor(m, p);
+                reals.insert_back(st.pre, st.pre + 2);
+                XsGridData g;
+                g.log_energy = UniformGridData::from_bounds(std::log(s.emin), std::log(s.emax), s.N);
+                g.value = reals.insert_back(vv.begin(), vv.end());
+                reals.insert_back(st.post, st.post + 2);
                 make_builder(&host.xs).push_back(g);
             }
         }
@@ -1420,11 +1533,37 @@ static void run_msc_case(vf::Run& R, std::string const& cid, LogSpec const& spec
     ld const min_step = UrbanMscParameters::min_step();
     ld const dtrl = UrbanMscParameters::dtrl();
 
-    for (int mat = 0; mat < es_count; ++mat)
+    // electron in every material; positron (range tables rotated by one material, own MSC table)
+    // in one material, thorough tier: in every material
+    struct PM
+    {
+        bool pos;
+        int mat;
+    };
+    std::vector<PM> pms;
+    for (int m = 0; m < es_count; ++m)
+        pms.push_back({false, m});
+    for (int m = 0; m < es_count; ++m)
+        if (thorough || (m + 1) % es_count == es_const)
+            pms.push_back({true, m});
+    std::vector<Cand> lcands;
+
+    for (PM const& pm : pms)
+    {
+        int const mat = pm.mat;
+        int const tabidx = pm.pos ? (mat + 1) % es_count : mat;
+        std::string const mname = fmt("%s[%s in material %d]", eloss_shape_name(tabidx),
+                                      pm.pos ? "e+" : "e-", mat);
+        // the scaled-xs table this (material, particle) must see
+        std::vector<double> vv(v);
+        for (double& x : vv)
+            x *= msc_factor(mat, pm.pos ? 1 : 0);
+        XsOracle lorc{spec, vv, NONE};
+        R.tag(pm.pos ? "msc:positron" : "msc:electron");
         for (double E : energies)
         {
-            ParticleTrackView par0 = P[0].particle(E), par1 = P[1].particle(E);
-            PhysicsTrackView ph0 = P[0].track(mat), ph1 = P[1].track(mat);
+            ParticleTrackView par0 = P[0].particle(E, pm.pos), par1 = P[1].particle(E, pm.pos);
+            PhysicsTrackView ph0 = P[0].track(mat, pm.pos), ph1 = P[1].track(mat, pm.pos);
             auto ppid = ph0.eloss_ppid();
             double range = ph0.make_calculator<RangeCalculator>(
                 ph0.value_grid(ValueGridType::range, ppid))(par0.energy());
@@ -1434,7 +1573,7 @@ static void run_msc_case(vf::Run& R, std::string const& cid, LogSpec const& spec
             {
                 R.count("msc_past_end");
                 R.violation("msc:read-past-end", cid,
-                            fmt("mat=%s range(E=%s): %s vs %s", eloss_shape_name(mat),
+                            fmt("mat=%s range(E=%s): %s vs %s", mname.c_str(),
                                 hexd(E).c_str(), vf::dstr(range).c_str(), vf::dstr(range1).c_str()));
                 continue;
             }
@@ -1459,6 +1598,28 @@ static void run_msc_case(vf::Run& R, std::string const& cid, LogSpec const& spec
                             fmt("msc_mfp(E=%s) = %s", hexd(E).c_str(), vf::dstr(lambda).c_str()));
                 continue;
             }
+            // value: lambda = E^2 / (scaled xs table of THIS material and particle at E); the
+            // division and the square add 3 roundings to the table lookup's tolerance
+            {
+                bool inside;
+                lorc.candidates(E, lcands, &inside);
+                bool ok = false;
+                ld wantl = 0;
+                for (Cand const& cd : lcands)
+                {
+                    if (!(cd.val > 0))
+                        continue;
+                    ld w = (ld)E * (ld)E / cd.val;
+                    wantl = w;
+                    ok |= absl((ld)lambda - w) <= w * (cd.tol / cd.val + 8 * EPS);
+                }
+                R.count("evaluations");
+                R.count("mfp_evals");
+                if (!ok)
+                    R.violation("msc:mfp-value", cid,
+                                fmt("%s msc_mfp(E=%s) = %s, E^2/table = %s", mname.c_str(), hexd(E).c_str(),
+                                    vf::dstr(lambda).c_str(), vf::dstr((double)wantl).c_str()));
+            }
             MscStepToGeo geo0(M[0].ref, h0, units::MevEnergy{E}, lambda, range);
             MscStepToGeo geo1(M[1].ref, h1, units::MevEnergy{E}, lambda, range);
 
@@ -1482,7 +1643,7 @@ static void run_msc_case(vf::Run& R, std::string const& cid, LogSpec const& spec
                 R.count("evaluations");
                 R.count("togeo_evals");
                 std::string what = fmt("mat=%s MscStepToGeo(E=%s, lambda=%s, range=%s)(t=%s)",
-                                       eloss_shape_name(mat), hexd(E).c_str(), hexd(lambda).c_str(),
+                                       mname.c_str(), hexd(E).c_str(), hexd(lambda).c_str(),
                                        hexd(range).c_str(), hexd(t).c_str());
                 if (!same_bits(g0.step, g1.step) || !same_bits(g0.alpha, g1.alpha))
                 {
@@ -1605,6 +1766,77 @@ static void run_msc_case(vf::Run& R, std::string const& cid, LogSpec const& spec
                 std::vector<double> gs = {0.0, g * 1e-3, g * 0.5, g > 0 ? ulp_add(g, -1) : 0.0, g,
                                           std::min(g, lambda), ulp_add(ms_d, -1), ms_d,
                                           ulp_add(ms_d, 1)};
+                std::sort(gs.begin(), gs.end());
+                gs.erase(std::unique(gs.begin(), gs.end()), gs.end());
+                // Documented inverse (class comment of MscStepFromGeo), evaluated in long double
+                // for the alpha and lambda that the library was given:
+                //   g < min_step                      -> g
+                //   alpha == 0 (constant xs)          -> -lambda log1p(-g/lambda), g if that is < min_step
+                //   otherwise, w = 1 + 1/(alpha lambda) -> (1 - (1 - min(alpha w g, 1))^(1/w)) / alpha, <= range
+                //   finally clamped to [g, t].
+                // Rounding model: u = g/lambda carries eps, 1 - u inside log1p is exact, so t moves
+                // by <= lambda eps u/(1 - u) + (log1p, product) 2 eps t.  Power branch: w has the
+                // relative error relw (3 eps when alpha > 0; for alpha < 0 the sum 1 + 1/(alpha
+                // lambda) cancels), x = alpha w g: relw + 2 eps, 1 - x: + eps absolute; the power
+                // 1/w amplifies d(1-x) by pw/((1-x) w) and the error of the exponent by
+                // pw |ln(1-x)|/w; pow, 1 - pw and the division by alpha add <= 4 eps.  Twice that.
+                ld const la = g0.alpha, lwv = 1 + 1 / (la * lam);
+                auto formula = [&](double gq, ld* tol, bool* claimed) -> ld {
+                    ld lg = gq;
+                    *claimed = true;
+                    *tol = 0;
+                    if (lg < min_step)
+                        return lg;
+                    ld tt;
+                    if (g0.alpha == 0)
+                    {
+                        ld u = lg / lam;
+                        if (!(u < 1 - 1e-9L))
+                        {
+                            *claimed = false;  // log of ~0: only the bounds are claimed
+                            return lt;
+                        }
+                        tt = -lam * log1pl(-u);
+                        *tol = 2 * (4 * EPS * lg / (1 - u) + 8 * EPS * tt);
+                        if (tt < min_step + *tol)
+                        {
+                            if (tt < min_step - *tol)
+                                return lg;
+                            *claimed = false;  // at the min_step switch either answer
+                            return tt;
+                        }
+                    }
+                    else
+                    {
+                        ld x = la * lwv * lg;
+                        if (!(x < 1 - 1e-9L) || !(lwv > 0))
+                        {
+                            // range-limited (x clamped to 1) or a non-positive exponent (alpha < 0
+                            // with |alpha| lambda <= 1): only the bounds are claimed
+                            *claimed = false;
+                            return lt;
+                        }
+                        ld om = 1 - x;  // > 1 for alpha < 0
+                        ld lnom = logl(om);
+                        ld pw = expl(lnom / lwv);
+                        tt = (1 - pw) / la;
+                        // relative error of w = 1 + 1/(alpha lambda): no cancellation for alpha > 0
+                        ld relw = la > 0 ? 4 * EPS : 4 * EPS * (1 + 2 / absl(la * lam)) / absl(lwv);
+                        ld dx = absl(x) * (relw + 4 * EPS);
+                        ld dom = dx + EPS * (1 + absl(x));
+                        ld dpw = pw * (dom / om / absl(lwv) + absl(lnom) / absl(lwv) * (relw + EPS) + 4 * EPS);
+                        *tol = 2 * (dpw / absl(la) + 4 * EPS * absl(tt) + 4 * EPS / absl(la));
+                        tt = std::min(tt, rg);
+                    }
+                    return std::max(lg, std::min(tt, lt));
+                };
+                bool havePrevB = false;
+                double prevB = 0, prevG = 0;
+                ld tol_at_g = 0;
+                {
+                    bool c;
+                    formula(g, &tol_at_g, &c);
+                }
                 for (double gq : gs)
                 {
                     if (!(gq >= 0 && gq <= g))
@@ -1622,6 +1854,59 @@ static void run_msc_case(vf::Run& R, std::string const& cid, LogSpec const& spec
                                     fmt("%s = %s; MscStepFromGeo(alpha=%s)(g=%s) = %s not in [g, t]",
                                         what.c_str(), vf::dstr(g).c_str(), vf::dstr(g0.alpha).c_str(),
                                         hexd(gq).c_str(), vf::dstr(b0).c_str()));
+                    // value against the documented inverse
+                    {
+                        ld tolf;
+                        bool claimed;
+                        ld wantb = formula(gq, &tolf, &claimed);
+                        if (claimed)
+                        {
+                            R.count("fromgeo_formula_evals");
+                            if (!(absl((ld)b0 - wantb) <= tolf))
+                                R.violation("msc:fromgeo-formula", cid,
+                                            fmt("%s = %s; MscStepFromGeo(alpha=%s)(g=%s) = %s, documented "
+                                                "inverse gives %s (tol %.3Lg)",
+                                                what.c_str(), vf::dstr(g).c_str(), vf::dstr(g0.alpha).c_str(),
+                                                hexd(gq).c_str(), vf::dstr(b0).c_str(),
+                                                vf::dstr((double)wantb).c_str(), tolf));
+                        }
+                        else
+                            R.tag("msc:fromgeo:formula-not-claimed(x~1, w<=0 or at min_step)");
+                        // true -> geo -> true is the identity (up to the error of the library's g,
+                        // bounded by tolz, amplified by dt/dz = (1 - alpha w g)^(1/w - 1), and
+                        // except where the small-step rule returns g itself)
+                        if (claimed && gq == g && ok && g >= (double)min_step && !is_small)
+                        {
+                            ld amp = 1;
+                            if (g0.alpha == 0)
+                                amp = 1 / (1 - (ld)g / lam);
+                            else
+                                amp = expl(logl(1 - la * lwv * (ld)g) * (1 / lwv - 1));
+                            ld gerr = g0.alpha == 0 ? 8 * EPS * lt : tolz;
+                            ld tolrt = tolf + 2 * gerr * amp + 8 * EPS * lt;
+                            R.count("roundtrip_msc_evals");
+                            // (a constant-xs result below min_step is replaced by g: not a round trip)
+                            bool const replaced = g0.alpha == 0 && (ld)b0 == (ld)g && lt < min_step + tolrt;
+                            if (!replaced && !(absl((ld)b0 - lt) <= tolrt))
+                                R.violation("msc:roundtrip", cid,
+                                            fmt("%s = %s; converting back gives %s instead of t (tol %.3Lg)",
+                                                what.c_str(), vf::dstr(g).c_str(), vf::dstr(b0).c_str(),
+                                                tolrt));
+                        }
+                    }
+                    // monotone in the geometrical step (slack: the rounding bound at the largest g)
+                    if (havePrevB)
+                    {
+                        R.count("monotone_pairs");
+                        if ((ld)b0 < (ld)prevB - (tol_at_g + 4 * EPS * lt))
+                            R.violation("msc:fromgeo-not-monotone", cid,
+                                        fmt("%s: back(g=%s) = %s < back(g=%s) = %s", what.c_str(),
+                                            hexd(gq).c_str(), vf::dstr(b0).c_str(), hexd(prevG).c_str(),
+                                            vf::dstr(prevB).c_str()));
+                    }
+                    havePrevB = true;
+                    prevB = b0;
+                    prevG = gq;
                     R.tag(gq < (double)min_step ? "msc:fromgeo:small-step"
                                                 : (g0.alpha == 0 ? "msc:fromgeo:log1p" : "msc:fromgeo:power"));
                     if (b0 == gq && gq >= (double)min_step)
@@ -1631,6 +1916,7 @@ static void run_msc_case(vf::Run& R, std::string const& cid, LogSpec const& spec
                 }
             }
         }
+    }
 }
 
 int main(int argc, char** argv)
@@ -1922,7 +2208,8 @@ int main(int argc, char** argv)
             }
 
     //// mean energy loss through the real physics views ////
-    std::vector<double> llls = {0.001, 0.01, 0.5};
+    // linear_loss_limit: validated range is [0, 1], both ends included
+    std::vector<double> llls = {0.0, 1e-300, 0.001, 0.01, 0.5};
     if (thorough)
         llls.push_back(1.0);
     for (GridRange gr : ranges)
